@@ -94,7 +94,7 @@ def run(tier, seed, replay=None):
                 required = set(rs.get("required", []))
             elif isinstance(rs, dict) and isinstance(rs.get("anyOf"), list):
                 schema_reference = False   # flattened union struct: serde on the same members is the only reference
-                insts = insts + [{}]
+                insts = [{}] + insts
             else:
                 continue   # allOf etc.: required set of the merged schema is not read from the document here
             for v in insts[:3]:
